@@ -953,9 +953,16 @@ class Banana(protocol.Protocol):
                 if len(self.buffer) >= 8:
                     obj = struct.unpack("!d", self.buffer.popleft(8))[0]
                 else:
-                    # this case is easier than STRING, because it is only 8
-                    # bytes. We don't bother skipping anything.
-                    self.buffer.appendleft(first65[:pos+1])
+                    # there is more to come
+                    if rejected:
+                        # drop what we have and skip the rest of the body,
+                        # as for STRING: the token must not be examined (and
+                        # its rejection reported) again when more bytes
+                        # arrive
+                        self.skipBytes = 8 - len(self.buffer)
+                        self.buffer.clear()
+                    else:
+                        self.buffer.appendleft(first65[:pos+1])
                     return
 
             elif typebyte == PING:
